@@ -1,5 +1,3 @@
-//go:build verif && c15wip
-
 package props
 
 // C15: Pending-proposal tree stays a tree; certified and committed markers only advance.
@@ -971,16 +969,13 @@ func TestC15(t *testing.T) {
 
 	// --- witnesses of the findings: decide the exclusions for this tree ---
 	noExclude := os.Getenv("C15_NO_EXCLUDE") == "1"
+	fs := hx.LoadFindings()
+	regressFixed(t, c, fs, "C15")
 	for _, id := range c15FindingIDs {
 		c15Exclude[id] = false
 		err := runC15Trace(c15Witness(id), nil)
-		c.Count("witness:"+id, false, "witness")
-		if err != nil {
-			t.Logf("HEAD-FAILURE: %s: %v", id, err)
-			c.Label("head-failure:" + id)
-			if !noExclude {
-				c15Exclude[id] = true
-			}
+		if witnessVerdict(t, c, fs, id, err, c15Witness(id)) && !noExclude {
+			c15Exclude[id] = true
 		}
 	}
 	excl := map[string]bool{}
